@@ -253,3 +253,34 @@ func Harness_C06_sequential() {
 	verif_Assert("C06.seq.at_most_one", len(w.maps.m) <= 1)
 	verif_Cover("C06.seq.done")
 }
+
+// Two codes issued through the real CreateConnectionCode for two different targets, with a code
+// generator whose alphabet is so small that the second draw repeats the first: issuing never hands
+// out a code that is still live (it draws again, or fails cleanly), so activating a code always
+// yields a mapping to the client the code was issued for - never to the holder of a younger code
+// that happens to spell the same.
+func Harness_C06_two_codes() {
+	verif_UseTapeRandom()
+	ctx := context.Background()
+	w := newC06World(ctx)
+	w.svc.generator = NewGenerator(&models.ConnectionCodeGenerator{SegmentLength: 1, SegmentCount: 1, Separator: "-", Charset: "ab"})
+	c1, e1 := w.svc.CreateConnectionCode(&CreateRequest{TargetClientID: 3001, TargetAddress: "tcp://10.0.0.5:3306", ActivationTTL: time.Hour, MappingDuration: time.Hour, CreatedBy: "t"})
+	verif_Assert("C06.two.first_issued", e1 == nil && c1 != nil && c1.Code != "")
+	c2, e2 := w.svc.CreateConnectionCode(&CreateRequest{TargetClientID: 3002, TargetAddress: "tcp://10.0.0.6:22", ActivationTTL: time.Hour, MappingDuration: time.Hour, CreatedBy: "t"})
+	if e2 == nil {
+		verif_Assert("C06.two.codes_differ", c2 != nil && c2.Code != c1.Code)
+		verif_Cover("C06.two.second_issued")
+	} else {
+		verif_Cover("C06.two.second_refused")
+	}
+	m, err := w.svc.ActivateConnectionCode(&ActivateRequest{Code: c1.Code, ListenClientID: 2001, ListenAddress: "0.0.0.0:9001"})
+	verif_Assert("C06.two.first_activates", err == nil && m != nil)
+	verif_Assert("C06.two.mapping_is_the_codes_own", m.TargetClientID == 3001 && m.TargetAddress == "tcp://10.0.0.5:3306" && m.ListenClientID == 2001)
+	verif_Assert("C06.two.one_mapping", len(w.maps.m) == 1)
+	if e2 == nil {
+		m2, err2 := w.svc.ActivateConnectionCode(&ActivateRequest{Code: c2.Code, ListenClientID: 2002, ListenAddress: "0.0.0.0:9002"})
+		verif_Assert("C06.two.second_activates", err2 == nil && m2 != nil && m2.TargetClientID == 3002 && m2.ListenClientID == 2002)
+		verif_Assert("C06.two.two_mappings", len(w.maps.m) == 2)
+	}
+	verif_Cover("C06.two.done")
+}
